@@ -231,8 +231,64 @@ def term_fd(c, rep):
     return "(CFdFI %s %s %s %s %s)" % (fb, ismod, cz(fbits(a[0])), cz(int(a[1])), o)
 
 
-CAP_FD_QUICK = 10       # per (representation, kind, operator): 80 cases
-CAP_FD_THOROUGH = 400   # 3200 cases
+CAP_FD_QUICK = 24       # per (representation, kind, operator): at most 192 cases
+CAP_FD_THOROUGH = 400   # at most 3200 cases
+
+
+def fd_bucket(c):
+    """Input class of a float //, % observation: sign relation of the operands, class of the float,
+    magnitude band of the int, and whether the division is exact (remainder zero)."""
+    from fractions import Fraction
+    a = c["a"]
+    if c["k"] == "mixif":
+        xi, f, int_first = int(a[0]), fval(a[1]), True
+    else:
+        f, xi, int_first = fval(a[0]), int(a[1]), False
+    if math.isnan(f) or math.isinf(f):
+        fclass = "nonfinite"
+    elif f == 0:
+        fclass = "zero"
+    else:
+        fclass = "finite"
+    si = (xi > 0) - (xi < 0)
+    sf = -1 if math.copysign(1.0, f) < 0 else 1
+    rel = "int0" if si == 0 else ("same" if si == sf else "diff")
+    big = abs(xi) >= (1 << 53)
+    div = None
+    if fclass == "finite" and xi != 0 and abs(xi) < (1 << 1023):
+        num, den = (Fraction(xi), Fraction(f)) if int_first else (Fraction(f), Fraction(xi))
+        div = (num % den == 0)
+    return (rel, fclass, big, div)
+
+
+def sample_buckets(lst, cap, keyfn):
+    """At most cap elements of lst, taken round-robin over the input classes (each class stride-sampled),
+    so that every class present is represented before any class gets a second element."""
+    if len(lst) <= cap:
+        return lst
+    buckets = {}
+    for it in lst:
+        buckets.setdefault(keyfn(it[1]), []).append(it)
+    keys = sorted(buckets, key=repr)
+    per = {k: 0 for k in keys}
+    quota = 0
+    while quota < cap:
+        progressed = False
+        for k in keys:
+            if quota >= cap:
+                break
+            if per[k] < len(buckets[k]):
+                per[k] += 1
+                quota += 1
+                progressed = True
+        if not progressed:
+            break
+    out = []
+    for k in keys:
+        b, n = buckets[k], per[k]
+        step = len(b) / float(n) if n else 0
+        out.extend(b[int(i * step)] for i in range(n))
+    return out
 
 CAPS_QUICK = {"enum": 60, "bin": 300, "cmp": 80, "un": 40, "cmpif": 150, "cmpfi": 150, "mixif": 20, "mixfi": 20, "parse": 50,
               "rng_in": 60, "rng_idx": 60, "rng_slice": 40, "rng_slice_len": 40}
@@ -377,10 +433,7 @@ def run(ctx):
     # ---- float // and % (eval.go Binary, Float.Mod, floor): ModelFloatDiv / CasesFloatDiv
     terms_fd, refs_fd = [], []
     for (rep, kind), lst in sorted(pools_fd.items()):
-        cap = CAP_FD_QUICK if quick else CAP_FD_THOROUGH
-        if len(lst) > cap:
-            step = len(lst) / float(cap)
-            lst = [lst[int(i * step)] for i in range(cap)]
+        lst = sample_buckets(lst, CAP_FD_QUICK if quick else CAP_FD_THOROUGH, fd_bucket)
         per_kind["%s/%s" % (rep, kind)] = len(lst)
         for t, c in lst:
             terms_fd.append(t)
@@ -399,7 +452,7 @@ def run(ctx):
         ctx.broken("correspondence:C10.ModelFloatDiv", "model and implementation differ on %d float //, %% case(s) where the specification is met, e.g. %s" % (len(only_model_fd), c))
     cov = {
         "evaluations": evaluations, "distinct_nontrivial": len(terms) + len(terms_fd),
-        "rule": "ordered product of the boundary pool {0, +-1, +-2, +-3, +-7, +-10, +-2^31(+-1), +-2^32(+-1), +-2^53(+-1), +-2^63(+-1), +-2^64(+-1), ...} x itself x 10 binary operators x 6 comparisons, unary operators, shifts by boundary counts, seeded random magnitudes up to 2^200, ints x float pool (subnormals, +-0, +-inf, NaN, halves, neighbours of 2^31/2^32/2^53/2^63/2^64) for comparisons / mixed arithmetic / conversions, for every magnitude band 2^31..2^52 and both signs an int n against n+-0.5, n+-0.25 and the adjacent floats, for bands 2^53..2^1022 the nearest float, its neighbours and the ints adjacent to them (all six operators, both operand orders), int(string, base) on printed and corrupted literals, int source literals of every radix spelling (decimal, 0x, 0X, 0o, 0O, 0b, 0B; sizes around 2^31..2^200) through the real scanner with negation / printing / int(text, 0) cross-checks, every callable member of starlark.Universe and lib/math.Module that accepts ints (enumerated at run time; abs, min, max, sorted, chr, bytes, ... and all math functions) on the boundary pool, range/enumerate/repetition on a machine-int boundary pool, enumerate(iterable, start) and the element-walking built-ins over every kind of iterable (list, tuple, dict, set, range, str.elems/elem_ords/codepoints/codepoint_ords, bytes.elems, a host Iterable without length, a host Sequence), each in both Int representations; evaluations = observations checked against the math/big oracle in the harness, distinct = distinct terms additionally evaluated in Coq against C10.Model and C10.Spec",
+        "rule": "ordered product of the boundary pool {0, +-1, +-2, +-3, +-7, +-10, +-2^31(+-1), +-2^32(+-1), +-2^53(+-1), +-2^63(+-1), +-2^64(+-1), ...} x itself x 10 binary operators x 6 comparisons, unary operators, shifts by boundary counts, seeded random magnitudes up to 2^200, ints x float pool (subnormals, +-0, +-inf, NaN, halves, neighbours of 2^31/2^32/2^53/2^63/2^64) for comparisons / mixed arithmetic / conversions, for every magnitude band 2^31..2^52 and both signs an int n against n+-0.5, n+-0.25 and the adjacent floats, for bands 2^53..2^1022 the nearest float, its neighbours and the ints adjacent to them (all six operators, both operand orders), int(string, base) on printed and corrupted literals, int source literals of every radix spelling (decimal, 0x, 0X, 0o, 0O, 0b, 0B; sizes around 2^31..2^200) through the real scanner with negation / printing / int(text, 0) cross-checks, every callable member of starlark.Universe and lib/math.Module that accepts ints (enumerated at run time; abs, min, max, sorted, chr, bytes, ... and all math functions) on the boundary pool, range/enumerate/repetition on a machine-int boundary pool, enumerate(iterable, start) and the element-walking built-ins over every kind of iterable (list, tuple, dict, set, range, str.elems/elem_ords/codepoints/codepoint_ords, bytes.elems, a host Iterable without length, a host Sequence), each in both Int representations; evaluations = observations checked against the math/big oracle in the harness, distinct = distinct terms additionally evaluated in Coq against C10.Model and C10.Spec; the int-float / float-int // and % observations (a stride sample per representation, operand order and operator) are evaluated against C10.ModelFloatDiv (correspondence) and the independent nearest-even rational oracle of CasesFloatDiv.v",
         "samples": refs[:3] + refs[len(refs) // 2: len(refs) // 2 + 2] + refs_fd[len(refs_fd) // 2: len(refs_fd) // 2 + 2],
         "distribution": dist,
         "coq_cases_per_kind": per_kind,
@@ -408,6 +461,7 @@ def run(ctx):
     }
     return ctx.finish(LEVEL, cov, assumptions=[
         "math/big (Int, Rat, Float), strconv and fmt integer formatting are oracles: modelled by Z operations / exact rationals",
+        "math.Mod and math.Floor are oracles (exact remainder with the dividend's sign / exact floor, special cases as documented in package math; ModelFloatDiv.v)",
         "hardware float64 arithmetic and int64<->float64 conversion are oracles (Coq.Floats.SpecFloat round-to-nearest-even operations / exact dyadic rationals in the model)",
         "the harness reaches the fallback representation through the verif hook VerifDisableSmallInts (smallints = 0), which is what int_posix64.go does when mmap fails; int_generic.go is structurally the union model",
     ])
